@@ -7,6 +7,7 @@ import (
 	"io"
 	"iter"
 	"log/slog"
+	"runtime"
 	"sort"
 	"strconv"
 	"strings"
@@ -53,9 +54,35 @@ func genRec(cfg Config, emit func(string, bool, []string)) {
 		if c%2 == 1 {
 			set = "-set" // status kept in a reconciler.StatusSet
 		}
-		add("cfg %d %d %d %s%s%s", minB, maxB, roundSize, mode, set, map[int]string{0: "", 1: "-batch"}[batch])
+		refresh := ""
+		if c%10 == 6 {
+			// refreshing and pruning enabled (not in the Lean model: decided by the oracle only)
+			mode, refresh = "oracle", "-refresh"
+		}
+		add("cfg %d %d %d %s%s%s%s", minB, maxB, roundSize, mode, set, map[int]string{0: "", 1: "-batch"}[batch], refresh)
 		nid := 1 + r.IntN(4)
 		clock := 0
+		if refresh != "" {
+			// objects get old enough to be refreshed; user writes land exactly when the refresher acts
+			nid = 2 + r.IntN(2)
+			for id := 1; id <= nid; id++ {
+				add("put %d %d", id, r.IntN(100))
+				add("advance %d", []int{1, 7, 33}[r.IntN(3)])
+			}
+			for k := 0; k < 4; k++ {
+				id := 1 + r.IntN(nid)
+				if r.IntN(3) == 0 {
+					add("delheld %d", id)
+					add("advance 33")
+					add("put %d %d", id, r.IntN(100))
+				} else {
+					add("putheld %d %d", id, r.IntN(100))
+				}
+				add("advance %d", []int{61, 103, 211}[r.IntN(3)])
+				add("obs")
+				add("advance 809")
+			}
+		}
 		if c%5 == 2 {
 			// long-failing operations side by side: updates and a delete that keep failing over
 			// several retry periods while the retry low-watermark is observed
@@ -200,6 +227,7 @@ type recExec struct {
 	k4            map[uint64]bool
 	delRev        map[uint64]uint64 // revision of the user's deletion of an object
 	lwSamples     []lwSample        // low-watermark as reported while a round is in progress
+	refresh       time.Duration     // refresh interval (0 = refreshing and pruning disabled)
 	inUpdate      uint64
 	inUpdateRetry bool
 }
@@ -312,6 +340,22 @@ func (o recOps) Delete(ctx context.Context, txn statedb.ReadTxn, rev statedb.Rev
 	return o.e.doDelete(rev, obj)
 }
 func (o recOps) Prune(ctx context.Context, txn statedb.ReadTxn, objs iter.Seq2[*recObj, statedb.Revision]) error {
+	// C15: Prune only once the table is initialized, and always with the table's complete contents
+	e := o.e
+	if ok, _ := e.table.Initialized(txn); !ok {
+		e.o.Fail("C15", "prune-before-initialized", nil, "Prune called although the table is not initialized")
+	}
+	var got, want []string
+	for obj, rev := range objs {
+		got = append(got, fmt.Sprintf("%d:%d@%d", obj.ID, obj.Data, rev))
+	}
+	for obj, rev := range e.table.All(txn) {
+		want = append(want, fmt.Sprintf("%d:%d@%d", obj.ID, obj.Data, rev))
+	}
+	if strings.Join(got, " ") != strings.Join(want, " ") {
+		e.o.Fail("C15", "prune-with-partial-contents", nil, fmt.Sprintf("Prune was handed [%s], the table holds [%s]", strings.Join(got, " "), strings.Join(want, " ")))
+	}
+	e.o.Notes["prune calls"]++
 	return nil
 }
 func (o recOps) UpdateBatch(ctx context.Context, txn statedb.ReadTxn, batch []reconciler.BatchEntry[*recObj]) {
@@ -362,8 +406,8 @@ func (e *recExec) setup(minB, maxB, roundSize int, batch bool) {
 				e.rec, err = reconciler.Register(params, e.table,
 					(*recObj).Clone, (*recObj).SetStatus, (*recObj).GetStatus,
 					ops, bops,
-					reconciler.WithoutPruning(),
-					reconciler.WithRefreshing(0, nil),
+					reconciler.WithPruning(e.refresh+e.refresh/2),
+					reconciler.WithRefreshing(e.refresh, nil),
 					reconciler.WithRetry(e.minB, e.maxB),
 					reconciler.WithRoundLimits(roundSize, rate.NewLimiter(rate.Inf, 1)),
 				)
@@ -398,6 +442,69 @@ func (e *recExec) put(id uint64, data int) {
 	e.attempts[id] = 0
 	delete(e.k4, id)
 	delete(e.delRev, id)
+	e.mu.Unlock()
+	wtxn.Commit()
+}
+
+func refresherWaitsForLock() bool {
+	buf := make([]byte, 1<<20)
+	n := runtime.Stack(buf, true)
+	for _, g := range strings.Split(string(buf[:n]), "\n\n") {
+		if strings.Contains(g, "refreshLoop") && strings.Contains(g, "WriteTxn") {
+			return true
+		}
+	}
+	return false
+}
+
+func (e *recExec) heldWrite(id uint64, data int, del bool) {
+	// no sleeping while the table lock is held (a goroutine blocked on a mutex keeps the bubble's
+	// clock from advancing): run up to the instant the object is due for its refresh, then race the
+	// refresher for the lock; when we win, let it run until it blocks on the lock, then write
+	race := false
+	if cur, _, ok := e.table.Get(e.db.ReadTxn(), recIDIndex.Query(id)); ok && e.refresh > 0 && cur.GetStatus().Kind == reconciler.StatusKindDone {
+		if d := time.Until(cur.GetStatus().UpdatedAt.Add(e.refresh)); d > 0 {
+			time.Sleep(d)
+		}
+		race = true
+	}
+	wtxn := e.db.WriteTxn(e.table)
+	old, _, ok := e.table.Get(wtxn, recIDIndex.Query(id))
+	if race {
+		waits := false
+		for i := 0; i < 400 && !waits; i++ {
+			runtime.Gosched()
+			if i%20 == 19 {
+				waits = refresherWaitsForLock()
+			}
+		}
+		if waits {
+			e.o.Notes["user write committed while the refresher waited for the lock"]++
+		}
+	}
+	e.mu.Lock()
+	if del {
+		if _, had, _ := e.table.Delete(wtxn, &recObj{ID: id}); had {
+			e.delRev[id] = e.table.Revision(wtxn)
+		}
+		delete(e.ref, id)
+	} else {
+		obj := &recObj{ID: id, Data: data, UseSet: e.useSet, Status: reconciler.StatusPending()}
+		other := 0
+		if ok {
+			other = old.Other
+			obj.Set = old.Set.Pending()
+		} else {
+			obj.Set = reconciler.NewStatusSet()
+		}
+		obj.Other = other
+		e.table.Insert(wtxn, obj)
+		e.ref[id] = recRef{data: data, other: other, rev: e.table.Revision(wtxn)}
+		delete(e.delRev, id)
+	}
+	e.calls = append(e.calls, recCall{op: "change", id: id, at: e.since()})
+	e.attempts[id] = 0
+	delete(e.k4, id)
 	e.mu.Unlock()
 	wtxn.Commit()
 }
@@ -630,7 +737,10 @@ func (e *recExec) Do(o *Out, f []string) string {
 		rs, _ := strconv.Atoi(f[3])
 		e.oracleOnly = !strings.HasPrefix(f[4], "exact")
 		e.useSet = strings.Contains(f[4], "set")
-		e.setup(minB, maxB, rs, strings.HasSuffix(f[4], "-batch"))
+		if strings.Contains(f[4], "-refresh") {
+			e.refresh = 700 * time.Millisecond
+		}
+		e.setup(minB, maxB, rs, strings.Contains(f[4], "-batch"))
 	case "put":
 		id, _ := strconv.ParseUint(f[1], 10, 64)
 		d, _ := strconv.Atoi(f[2])
@@ -641,6 +751,16 @@ func (e *recExec) Do(o *Out, f []string) string {
 	case "touch":
 		id, _ := strconv.ParseUint(f[1], 10, 64)
 		e.touch(id)
+	case "putheld", "delheld":
+		// a user write that lands while the refresher is waiting for the table lock: the
+		// transaction is opened first, time runs up to the instant the object is due for a
+		// refresh, the refresher is let run until it blocks on the lock, then the write commits
+		id, _ := strconv.ParseUint(f[1], 10, 64)
+		d := 0
+		if len(f) > 2 {
+			d, _ = strconv.Atoi(f[2])
+		}
+		e.heldWrite(id, d, f[0] == "delheld")
 	case "fail":
 		id, _ := strconv.ParseUint(f[1], 10, 64)
 		e.mu.Lock()
